@@ -35,6 +35,13 @@ impl DynamicTypeItem {
         self.0
     }
     
+    /* Conversion codes are written with '.' as decimal separator. The text is handed to the tokenizer in the
+       configured convention, so the configured separators never change the converted value. */
+    fn execute_code(config: &SmartCalcConfig, code: &str, number: f64) -> Option<f64> {
+        let data = code.replace("{value}", &number.to_string()).replace('.', &config.decimal_seperator);
+        SmartCalc::basic_execute(data, config).ok()
+    }
+
     fn  calculate_unit(config: &SmartCalcConfig, number: f64, source_type: Rc<DynamicType>, target_type: Rc<DynamicType>, group: &BTreeMap<usize, Rc<DynamicType>>) -> Option<f64> {
         
         if source_type.index == target_type.index {
@@ -58,10 +65,7 @@ impl DynamicTypeItem {
                 false => &next_item.downgrade_code[..]
             };
             
-            number = match SmartCalc::basic_execute(code.replace("{value}", &number.to_string()), config) {
-                Ok(number) => number,
-                Err(_) => return None
-            };
+            number = Self::execute_code(config, code, number)?;
 
             next_item = match group.get(&search_index) {
                 Some(item) => item.clone(),
@@ -118,10 +122,7 @@ impl DynamicTypeItem {
             false => &type_conversion.to_target_calculation[..]
         };
 
-        let number = match SmartCalc::basic_execute(code.replace("{value}", &number.to_string()), config) {
-            Ok(number) => number,
-            Err(_) => return None
-        };
+        let number = Self::execute_code(config, code, number)?;
 
         for (_, group) in config.types.iter() {
             for (_, target_dynamic_type) in group.iter() {
